@@ -86,6 +86,13 @@ Definition zero_wrap (w : wkind) : gval :=
   | WNullTime => VNullW false (VTime time_zero)
   end.
 
+(* underlying type, for reflect.Kind dispatch *)
+Fixpoint underlying (t : gtype) {struct t} : gtype :=
+  match t with TNamed _ u => underlying u | _ => t end.
+
+(* element kind uint8: []T is a byte slice, [n]T a byte array *)
+Definition is_u8 (t : gtype) : bool := match underlying t with TInt U8 => true | _ => false end.
+
 Fixpoint zero_of (t : gtype) {struct t} : gval :=
   match t with
   | TBool => VBool false
@@ -93,9 +100,8 @@ Fixpoint zero_of (t : gtype) {struct t} : gval :=
   | TFloat32 => VF32 0
   | TFloat64 => VF64 0
   | TString => VStr []
-  | TSlice (TInt U8) => VBytes []
-  | TSlice _ => VSlice []
-  | TArray n (TInt U8) => VFixed (repeat 0 (Z.to_nat n))
+  | TSlice e => if is_u8 e then VBytes [] else VSlice []
+  | TArray n e => if is_u8 e then VFixed (repeat 0 (Z.to_nat n)) else VBad
   | TMap _ _ => VMapNil
   | TPtr _ => VPtr None
   | TStruct _ _ fields =>
@@ -105,10 +111,6 @@ Fixpoint zero_of (t : gtype) {struct t} : gval :=
   | TNamed _ u => zero_of u
   | _ => VBad
   end.
-
-(* underlying type, for reflect.Kind dispatch *)
-Fixpoint underlying (t : gtype) {struct t} : gtype :=
-  match t with TNamed _ u => underlying u | _ => t end.
 
 (* pointer peeling: number of leading pointers and the pointee *)
 Fixpoint peel (t : gtype) {struct t} : nat * gtype :=
